@@ -164,7 +164,7 @@ def _qcow2(rng, ctx, c, cnt, sample, res, with_snaps=False):
     img, dataf, meta = wq.build(rng, cluster_bits=cb, size=size, views=views, version=ver, header_length=hl, extensions=exts, backing_name=bname,
                                 external_data=external and bool(datafile_named), data_file_name=datafile_named[0] if datafile_named else None,
                                 placement="shuffle", snapshots_meta=metas, l1_extra=rng.choice([0, 2]), compat=compat, autoclear=autoclear,
-                                refcount_order=rng.choice([4, 4, 3, 6]), rand_info=False)
+                                refcount_order=rng.choice([4, 4, 3, 6]), rand_info=False, ext_end_marker=rng.random() < 0.7)
     ext_on = external and bool(datafile_named)
     q = _open(QCow2, as_handle(img.to_bytes()), data_file=as_handle(dataf.to_bytes()) if ext_on else None,
               backing_file=ALLOW_NO_BACKING_FILE if bname else None)
@@ -428,7 +428,8 @@ def _vhd(rng, ctx, c, cnt, sample, res):
     n = rng.randrange(1, 20 if bs < (1 << 20) else 4)
     extra = rng.choice([0, 3])
     sf, layer, meta = wvhd.build_dynamic(rng, block_size=bs, nblocks=n, tail_cut_sectors=rng.randrange(0, bs // SECTOR), tag=1,
-                                         header_off=512 * rng.randrange(1, 9), table_gap=rng.randrange(0, 4), extra_entries=extra)
+                                         header_off=512 * rng.randrange(1, 9), table_gap=rng.randrange(0, 4), extra_entries=extra,
+                                         stale_copy=rng.random() < 0.4)
     v = _open(VHD, as_handle(sf.to_bytes() if sf.end < (16 << 20) else sf))
     c.eq("size", v.size, meta["size"])
     c.eq("disk.footer.current_size", v.disk.footer.current_size, meta["size"])
